@@ -66,6 +66,16 @@ Theorem print_to_file : forall (V : Type) (render : list byte -> ckind -> V -> o
 Proof. exact FormatProofs.print_file. Qed.
 Print Assumptions print_to_file.
 
+(* exact positions: the sink is called once per item, in order, each call at the start position plus
+   the length of the texts before it, with the item's own text as the piece and the argument in turn *)
+Theorem print_to_calls_exact : forall (V : Type) (render : list byte -> ckind -> V -> option (list byte)) (show : V -> list byte)
+    items args k pos ts,
+  wf_items items = true -> texts V render show items args = Some ts ->
+  exists st, print_to V render show k pos (unparse items) args = ODone st
+    /\ List.rev (p_calls st) = calls_of items ts pos 0.
+Proof. exact FormatProofs.print_to_calls. Qed.
+Print Assumptions print_to_calls_exact.
+
 (* the empty format writes nothing and returns pos *)
 Theorem print_to_empty : forall (V : Type) (render : list byte -> ckind -> V -> option (list byte)) (show : V -> list byte)
     k pos args, print_to V render show k pos nil args = ODone (mkP k pos 0 nil).
@@ -85,6 +95,25 @@ Example too_few_arguments_nonvacuous :
   /\ exists st, print_to nat ex_render ex_show (SFile nil) 0 ex_fmt (cons 1 (cons 2 nil)) = ORaise st
        /\ p_sink st = SFile (cons 1 (cons 1 (cons 2 (cons 2 (cons 32 (cons 97 (cons 37 nil))))))).
 Proof. exact FormatProofs.ex_few. Qed.
+
+(* ... and at that moment exactly the items before the first one left without argument have been
+   written (the property only demands the exception; this states what the code does) *)
+Theorem too_few_arguments_partial_output : forall (V : Type) (render : list byte -> ckind -> V -> option (list byte)) (show : V -> list byte)
+    before it after args k pos ts,
+  wf_items (before ++ it :: after) = true -> consumes it = true ->
+  texts V render show before args = Some ts -> nconsumers before = length args ->
+  exists st, print_to V render show k pos (unparse (before ++ it :: after)) args = ORaise st
+    /\ p_sink st = write_all k pos ts
+    /\ p_pos st = pos + length (List.concat ts).
+Proof. exact FormatProofs.too_few_arguments_partial. Qed.
+Print Assumptions too_few_arguments_partial_output.
+
+Example too_few_arguments_partial_nonvacuous :
+  wf_items (List.firstn 4 ex_items ++ ShowDollar :: List.skipn 5 ex_items) = true /\ consumes ShowDollar = true
+  /\ texts nat ex_render ex_show (List.firstn 4 ex_items) (cons 1 (cons 2 nil))
+     = Some (cons (cons 1 (cons 1 nil)) (cons (cons 2 (cons 2 nil)) (cons (cons 32 (cons 97 nil)) (cons (cons 37 nil) nil))))
+  /\ nconsumers (List.firstn 4 ex_items) = length (cons 1 (cons 2 nil)).
+Proof. exact FormatProofs.ex_partial_bundle. Qed.
 
 (* FormatError is raised ONLY when some item has no text (arguments ran out, or libc failed) ... *)
 Theorem print_to_raises_without_text : forall (V : Type) (render : list byte -> ckind -> V -> option (list byte)) (show : V -> list byte)
